@@ -181,4 +181,32 @@ static inline void active_sets(std::vector<MfSet> const &sets, double x, std::ve
         }
     }
 }
+
+// reference gain offsets: weighted mean of the consequents of the active rules (0 when no rule fires)
+static inline void ref_gains(FuzzyCfg const &f, double e, double ec, long double out[3], bool *any)
+{
+    std::vector<unsigned> ie, iec;
+    std::vector<double> ve, vec;
+    active_sets(f.se, e, ie, ve);
+    active_sets(f.sec, ec, iec, vec);
+    long double sw = 0, s[3] = {0, 0, 0};
+    for (size_t i = 0; i < ie.size(); ++i)
+    {
+        for (size_t j = 0; j < iec.size(); ++j)
+        {
+            long double w = ref_opr_d(f.opr, ve[i], vec[j]);
+            size_t at = size_t(ie[i]) * f.n + iec[j];
+            sw += w;
+            s[0] += w * f.kp[at];
+            s[1] += w * f.ki[at];
+            s[2] += w * f.kd[at];
+        }
+    }
+    bool fired = !ie.empty() && !iec.empty() && sw > 0;
+    if (any) { *any = fired; }
+    for (int k = 0; k < 3; ++k) { out[k] = fired ? s[k] / sw : 0; }
+    if (!f.use_kp) { out[0] = 0; }
+    if (!f.use_ki) { out[1] = 0; }
+    if (!f.use_kd) { out[2] = 0; }
+}
 #endif
